@@ -31,7 +31,7 @@ class Query:
     def __init__(self, key, harness, entry, defines=None, lowering='scalar', libs=(), models=(), stubs=None,
                  unwind=8, backends=('minisat', 'kissat', 'cvc5int'), cap=120, expect='pass', abort_fails=False,
                  extra=(), validate=False, witness=True, canary_of=None, externs=(), noops=(), sample=None,
-                 unwindset=(), native_sweep=200, object_bits=None, cflags=(), leak=False, finding_key=None):
+                 unwindset=(), native_sweep=200, object_bits=14, cflags=(), leak=False, finding_key=None):
         self.key = key
         self.harness = harness
         self.entry = entry
@@ -327,7 +327,7 @@ def native_build(q, work, prep, sanitize=False):
     objs.append(compile_obj(work, hpath, q.lowering, d, tuple(q.cflags)))
     rto = compile_obj(work, rt, 'scalar', {}, (ent,), tag=q.entry)
     exeA = os.path.join(qd, 'native_real')
-    must(['g++', '-o', exeA] + objs + [rto, '-lm', '-lpthread'])
+    must(['g++', '-o', exeA] + objs + [rto, '-lm', '-lpthread', '-no-pie', '-Wl,--unresolved-symbols=ignore-all', '-Wl,-z,lazy'])
     exeB = os.path.join(qd, 'native_gen')
     ob = os.path.join(qd, 'q.native.o')
     must(['gcc', '-std=gnu11', '-O1', '-w', '-I' + os.path.join(HERE, 'include'), '-c', prep['c'], '-o', ob] + LOWERING[q.lowering][:2])
